@@ -22,6 +22,11 @@ def run(chk):
     set_notional(chk)
     strategy_transact(chk)
     renormalized(chk)
+    from . import backtest_rules
+    # coupon, cost and notional tables reach the nodes and SetNotional with their own dates: the backtest only prepends the synthetic first row (a schedule expanded to every date
+    # is a notional of zero between the scheduled dates)
+    backtest_rules.process_data(chk, "C17")
+    backtest_rules.additional_data_only_prepended(chk)
 
 
 def set_notional(chk):
